@@ -19,15 +19,16 @@ run() { echo "--- $*" >>$LOG; "$@" >>$LOG 2>&1; }
 git apply $D/patch.diff >>$LOG 2>&1 || { echo "patch does not apply"; exit 2; }
 git apply $D/demo.diff >>$LOG 2>&1 || { echo "demo does not apply"; exit 2; }
 if [ -n "$FILTER" ]; then
-  CARGO_NET_OFFLINE=true cargo test --offline --lib -- $FILTER >$D/demo_with.log 2>&1; WITH=$?
+  CARGO_NET_OFFLINE=true timeout 900 cargo test --offline --lib -- $FILTER >$D/demo_with.log 2>&1; WITH=$?
   git apply -R $D/patch.diff
-  CARGO_NET_OFFLINE=true cargo test --offline --lib -- $FILTER >$D/demo_without.log 2>&1; WITHOUT=$?
+  CARGO_NET_OFFLINE=true timeout 900 cargo test --offline --lib -- $FILTER >$D/demo_without.log 2>&1; WITHOUT=$?
   git apply $D/patch.diff
 else WITH=skip; WITHOUT=skip; fi
 echo "demo with change rc=$WITH (expect non-zero); without rc=$WITHOUT (expect 0)" | tee -a $LOG
 # 2. change only: existing suite must pass
 git apply -R $D/demo.diff
-CARGO_NET_OFFLINE=true cargo test --offline --workspace --no-fail-fast >$D/suite.log 2>&1; SUITE=$?
+# the three tests BASELINE.json lists as flaky (they can spin forever and eat memory on a loaded machine) are skipped
+CARGO_NET_OFFLINE=true timeout 1200 cargo test --offline --workspace --no-fail-fast -- --skip connection_accepted_count_metric_should_work --skip listener_bound_count_metric_should_work --skip retry_with_backoff_on_accept_error >$D/suite.log 2>&1; SUITE=$?
 echo "existing suite with change rc=$SUITE: $(grep -E '^test result' $D/suite.log | head -1)" | tee -a $LOG
 # 3. our checks against the changed tree
 for P in "$@"; do
